@@ -343,6 +343,26 @@ Proof.
   apply orb_true_iff in A as [A | A]; [left | right]; now apply result_eqb_true.
 Qed.
 
+(** guard soundness over SEQUENCES of operations on one connector: whatever operations were called
+    before and after, on every interface, an operation whose requirement is false ends with
+    UnsupportedCapability or a failure report and transmits nothing *)
+Lemma guard_sound_seq (l : list (bexpr * gprog)) :
+  (forall rp, In rp l -> checks_before_sends_op (fst rp) (snd rp) = true) ->
+  forall e k req p outs,
+    nth_error l k = Some (req, p) ->
+    nth_error (run_seq (map snd l) e) k = Some outs ->
+    outs = grun p e /\
+    forall r sends, In (r, sends) outs -> beval req e = false ->
+      (r = RRaise EUnsupportedCapability \/ r = RFalse) /\ sends = [].
+Proof.
+  intros Hall e k req p outs Hk Ho.
+  unfold run_seq in Ho. rewrite map_map in Ho.
+  rewrite (map_nth_error (fun x => grun (snd x) e) k l Hk) in Ho. cbn in Ho. inversion Ho; subst outs.
+  split; [reflexivity|]. intros r sends Hin Hreq.
+  apply nth_error_In in Hk. specialize (Hall _ Hk). cbn in Hall.
+  eapply guard_sound_op; eauto.
+Qed.
+
 (** a found witness really violates the requirement *)
 Lemma ctor_witness_sound req p e :
   ctor_witness req p = Some e -> ctor_ok req p e = false.
